@@ -56,23 +56,39 @@ func fidelity(x *mon.Ctx) {
 // checkHealthy judges one execution on a source that never fails. minRetries > 0
 // demands that the model saw that many algorithm-level retries (forced-retry cases).
 func checkHealthy(c *mon.Case, o *op, variant string, out *outcome, src *mon.Script, minRetries int) *verdict {
+	return checkHealthyAt(c, o, variant, out, src, 0, 0, minRetries, nil)
+}
+
+// checkHealthyAt judges a call that started when the source had already handed out off
+// bytes in calls0 main-stream reads (a random source shared by several calls: the call's own
+// stream is what the source serves from off on). note, if not nil, relates a wrong output to
+// the history of the object (detail appended to the violation).
+func checkHealthyAt(c *mon.Case, o *op, variant string, out *outcome, src *mon.Script, off, calls0, minRetries int, note func() string) *verdict {
 	mainCalls, probes := logStats(src)
+	mainCalls -= calls0
+	consumed := src.Consumed() - off
 	c.Event("reads_main", mainCalls)
 	c.Event("reads_probe", probes)
-	c.Event("bytes_consumed", src.Consumed())
+	c.Event("bytes_consumed", consumed)
+	hist := func() string {
+		if note == nil {
+			return ""
+		}
+		return note()
+	}
 	if out.err != nil {
-		c.Fail("mismatch", "%s %s returned error %q on a random source that never fails (%d of %d bytes consumed in %d reads)%s",
-			o.name, variant, out.err, src.Consumed(), len(src.Stream), mainCalls, withOutput(out))
+		c.Fail("mismatch", "%s %s returned error %q on a random source that never fails (%d of %d bytes consumed in %d reads)%s%s",
+			o.name, variant, out.err, consumed, len(src.Stream)-off, mainCalls, withOutput(out), hist())
 		return nil
 	}
 	if out.output == "" {
-		c.Fail("mismatch", "%s %s returned neither an error nor an output", o.name, variant)
+		c.Fail("mismatch", "%s %s returned neither an error nor an output%s", o.name, variant, hist())
 		return nil
 	}
-	v, why := decide(o.rule, out, src.Stream, minRetries > 0)
+	v, why := decide(o.rule, out, src.Stream[off:], minRetries > 0)
 	if v == nil {
 		c.Detail("output", out.output)
-		c.Fail("mismatch", "%s %s: secret scalar is not the first in-range 32-byte block of the random stream (rule %s): %s", o.name, variant, o.rule, why)
+		c.Fail("mismatch", "%s %s: secret scalar is not the first in-range 32-byte block of the random stream (rule %s): %s%s", o.name, variant, o.rule, why, hist())
 		return nil
 	}
 	if out.recovered != nil {
@@ -83,10 +99,10 @@ func checkHealthy(c *mon.Case, o *op, variant string, out *outcome, src *mon.Scr
 	}
 	c.Event("blocks_rejected_modelled", len(v.rejected))
 	c.Event("algo_retries_modelled", v.retries)
-	if want := v.consumed + out.extra; src.Consumed() != want {
+	if want := v.consumed + out.extra; consumed != want {
 		c.Detail("read_log", fmt.Sprintf("%+v", head2(src.Log, 40)))
 		c.Fail("mismatch", "%s %s consumed %d bytes of the random stream; the rule explains %d (%d rejected block(s) + the accepted one%s)",
-			o.name, variant, src.Consumed(), want, len(v.rejected), extraNote(out.extra))
+			o.name, variant, consumed, want, len(v.rejected), extraNote(out.extra))
 		return nil
 	}
 	c.Event("consumption_explained", 1)
@@ -321,9 +337,6 @@ func retry(x *mon.Ctx) {
 	reps := x.Scale(6, 120)
 	for _, cond := range []string{"r=0", "r+k=n", "s=0"} {
 		for _, curve := range []string{"sm2", "nistp256"} {
-			if curve == "nistp256" && pureGo() {
-				continue
-			}
 			for rep := 0; rep < reps; rep++ {
 				c := x.Begin("retry %s sign, first in-range nonce gives %s, rep=%d", curve, cond, rep)
 				if c == nil {
@@ -342,6 +355,18 @@ func retry(x *mon.Ctx) {
 					continue
 				}
 				retryEncrypt(e, c, i, follow)
+				c.End()
+			}
+		}
+	}
+	for i := range zeroTNIST {
+		for _, follow := range []string{"random", "one"} {
+			for rep := 0; rep < x.Scale(3, 30); rep++ {
+				c := x.Begin("retry sm2 encrypt over NIST P-256, first in-range nonce gives t=0 (1-byte message), vector=%d next-nonce=%s rep=%d", i, follow, rep)
+				if c == nil {
+					continue
+				}
+				retryLegacyEncrypt(e, c, i, follow)
 				c.End()
 			}
 		}
